@@ -1,6 +1,7 @@
 """C12 — concurrent readers never observe wrapped or impossible aggregates."""
 from . import conc
 from .concprop import *
+from . import c03
 from .c03 import CoqJudges
 
 # The statement handed to the extracted Coq judge (Spec/ConcJudges.v: range_b <=> RangeOK; Properties/Tie.v
@@ -63,4 +64,7 @@ def run(tier, seed, replay=None):
     return run_conc_property(
         "C12", tier, seed, replay,
         judges=[("aggregate range after every step", judge_range)],
-        n_quick=2500, n_thorough=60000, flags="mode=O", extra_obligations=CJ.obligations)
+        n_quick=2500, n_thorough=60000, flags="mode=O", extra_obligations=CJ.obligations,
+        # programs built around one order (matcher vs amender / canceller / same-price replace): the windows between an
+        # update's queue operations and its counter operations are hit in every run
+        extra_lines=lambda rng, tier: [l.replace("|drain,mode=O", "|mode=O") for l in c03.extra_lines(rng, tier)])
